@@ -2182,3 +2182,50 @@ package hermes
 //@   uses HermesSession.Run$1#prologue
 //@   uses HermesSession.Run$1#dayglue: thickness offsets
 //@   opaque FinalDungPrognose progout
+
+// the classic (fixed-width) soil reader, same clauses as the CSV reader: stone content is percent, every horizon gets the
+// density of its class, the soil file's groundwater level is used exactly when the configuration says so
+//@ region LoadSoil#horizon from "soildata.BART[i] = bodenLine[9:12]" to "soildata.STEIN[i] = ValAsFloat(bodenLine[18:20]"
+//@   serves C15, C19
+//@   opaque VerifyAndCorrectTexture SoilFileData.cNSetup
+//@   requires slot: 0 <= i && i < 10
+//@   ensures[C15] stonepercent: soildata.STEIN[i] == ufreal("number", bodenLine[18:20])/100
+//@   ensures[C19] density: 1 <= soildata.LD[i] && soildata.LD[i] <= 5 ==> 1.1 <= soildata.BULK[i] && soildata.BULK[i] <= 1.85
+//@   return-ensures errorpath: !isnil(result1)
+//@ region LoadSoil#gwsource between "soildata.WURZMAX = int(ValAsInt(" and "soildata.DRAIDEP = int(ValAsInt("
+//@   serves C20
+//@   ensures configured: soildata.useGroundwaterFromSoilfile == withGroundwater
+//@   ensures untouched: !withGroundwater ==> unchanged(soildata.GRHI, soildata.GRLO, soildata.GRW, soildata.GW)
+//@   return-ensures errorpath: !isnil(result1)
+
+// the number of 10 cm layers a soil reader hands on is between 1 and 20 (the capacity every per-layer loop of the kernels
+// relies on): a profile outside that range fails the run with an error
+//@ region LoadSoil#layers from "soildata.N = soildata.UKT[soildata.AZHO]" to "if soildata.N > 20 || soildata.N < 1 {"
+//@   serves C01, C02, C06
+//@   ensures layers: 1 <= soildata.N && soildata.N <= 20
+//@   return-ensures errorpath: !isnil(result1)
+//@ region LoadSoilCSV#layers from "soildata.N = soildata.UKT[soildata.AZHO]" to "if soildata.N > 20 || soildata.N < 1 {"
+//@   serves C01, C02, C06
+//@   ensures layers: 1 <= soildata.N && soildata.N <= 20
+//@   return-ensures errorpath: !isnil(result1)
+// ... and Input takes exactly that number (and the drain parameters) over into the run state
+//@ region Input#soilcopy from "g.SoilID = currentSoil.SoilID" to "g.DRAIFAK = currentSoil.DRAIFAK"
+//@   serves C01, C02, C06
+//@   requires layers: 1 <= currentSoil.N && currentSoil.N <= 20
+//@   ensures layers: 1 <= g.N && g.N <= 20 && g.N == currentSoil.N
+//@   ensures drain: g.DRAIDEP == currentSoil.DRAIDEP && g.DRAIFAK == currentSoil.DRAIFAK
+//@   ensures minerdepth: g.IZM <= g.N * g.DZ.Index || g.IZM == old(g.IZM)
+
+// C04  the one-file-per-year weather reader, one record: the record's day of year is the successor of the previous record's
+// (a gap ends the run with an error), and every value of the record is stored in the slot of THAT day, column by column
+// (columns: mean, minimum, maximum temperature, ET0, relative humidity, evaporation, wind, sunshine, radiation, precipitation,
+// day of year)
+//@ region WetterK#record from "WETTER := scanner.Text()" to "s.MaxYearDays[0] = T"
+//@   serves C04
+//@   opaque Explode
+//@   define num(k) = ufreal("number", Wettin[k])
+//@   ensures consecutive: T == old(Tlast) + 1 && Tlast == T && Tindex == T - 1
+//@   ensures sameday: s.TMP[0][T-1] == num(0) && s.TMI[0][T-1] == num(1) && s.TMA[0][T-1] == num(2) && s.RELF[0][T-1] == num(4) && s.WIN[0][T-1] == num(6) && s.RADI[0][T-1] == num(8) && s.REG[0][T-1] == num(9)
+//@   ensures optional: s.ETNULL[0][T-1] == num(3) && s.VERD[0][T-1] == num(5) && s.SUND[0][T-1] == num(7)
+//@   ensures length: s.MaxYearDays[0] == T
+//@   return-ensures errorpath: !isnil(result0)
